@@ -13,6 +13,7 @@ mod props {
     pub mod blocksgen;
     pub mod drift;
     pub mod mix;
+    pub mod c10;
 }
 
 use common::{CaseOut, Tier};
@@ -24,6 +25,7 @@ fn prop_header(prop: &str) -> &'static str {
     match prop {
         "C09" => props::c09::HEADER,
         "C06" | "C07" | "C08" => props::keys::HEADER,
+        "C10" => props::c10::HEADER,
         "C03" | "C05" | "C12" => props::blocksgen::HEADER,
         "C01" | "C02" => props::drift::HEADER,
         "C11" | "C13" | "C14" | "C20" => props::mix::HEADER,
@@ -34,6 +36,7 @@ fn prop_header(prop: &str) -> &'static str {
 fn prop_gen(prop: &str, rng: &mut Rng, idx: usize, tier: Tier) -> CaseOut {
     match prop {
         "C09" => props::c09::generate(rng, idx, tier),
+        "C10" => props::c10::generate(rng, idx, tier),
         "C11" => props::mix::generate_c11(rng, idx, tier),
         "C13" => props::mix::generate_c13(rng, idx, tier),
         "C14" => props::mix::generate_c14(rng, idx, tier),
